@@ -82,6 +82,12 @@ def construct(cls, a):
         return Parent(id="p", location=SingleInterval(0, a[0], S(a[3])),
                       sequence=Sequence("A" * a[1], Alphabet.NT_STRICT) if a[1] >= 0 else None,
                       strand=S(a[2]) if a[2] else None)
+    if cls == "RPOS":
+        l = SingleInterval(a[0][0], a[1][0], S(a[2])) if len(a[0]) == 1 else CompoundInterval(a[0], a[1], S(a[2]))
+        p = l.relative_to_parent_pos(a[3])
+        if not any(s0 <= p < e0 for s0, e0 in zip(a[0], a[1])):
+            raise AttributeError("relative_to_parent_pos answered with a position outside the location")
+        return l
     if cls == "QPOS":
         genes = [GeneInterval([TranscriptInterval([a[0] + 2 + 3 * i], [a[0] + 6 + 3 * i], Strand.PLUS, transcript_id="q%d" % i)])
                  for i in range(2)]
@@ -151,7 +157,7 @@ def _ctor_events(cases):
 def _random_cases(rnd, n):
     out = []
     for _ in range(n):
-        cls = rnd.choice(["SI", "CI", "CDS", "TX", "FEAT", "VAR", "VCOLL", "COLL", "GENE", "SEQ", "PARENT", "CODON", "QPOS", "FSI"])
+        cls = rnd.choice(["SI", "CI", "CDS", "TX", "FEAT", "VAR", "VCOLL", "COLL", "GENE", "SEQ", "PARENT", "CODON", "QPOS", "FSI", "RPOS"])
         r = lambda lo=-1, hi=12: rnd.randrange(lo, hi)  # noqa: E731
         st = rnd.choice("+-.")
         sl = rnd.choice([-1, -1, 8, 10])
@@ -194,6 +200,15 @@ def _random_cases(rnd, n):
             if a[1] > a[0]:
                 a[1] = a[0]
             a[2] = a[2] and a[0] >= 2
+        elif cls == "RPOS":
+            k = rnd.randrange(1, 3)
+            ss = sorted(r(0, 10) for _ in range(k))
+            es = [s0 + rnd.randrange(1, 4) for s0 in ss]
+            if k == 2 and es[0] > ss[1]:
+                ss[1] = es[0]
+                es[1] = max(es[1], ss[1] + 1)
+            n = sum(e0 - s0 for s0, e0 in zip(ss, es))
+            a = [ss, es, rnd.choice("+-"), rnd.choice([-1, 0, n - 1, n, n, n + 1, rnd.randrange(0, n + 1)])]
         elif cls == "QPOS":
             cs = rnd.choice([0, 0, 3, 10])
             ce = cs + rnd.choice([20, 30])
